@@ -31,10 +31,14 @@ CONSTANTS Classes,     \* sender classes of the outer stanza
           Inners,      \* inner message kinds
           Gens,        \* {"v1","v2"}: QXmppCarbonManager / QXmppCarbonManagerV2
           JidCfgs,     \* configured-JID variants of the client
+          Estabs,      \* ways the own address of the session is established (see `estab`)
           Hows,        \* ways the application re-configures the account of a live client object (may be {})
           MaxHist
 
 VARIABLES gen,
+          estab,           \* how the own address of the session was established: "configured" (the application set the
+                           \* JID, the session just uses it) or "bound<R>": the server assigned the full JID in the RFC 6120
+                           \* bind result, with a resource of class R (Plain, Slash, At, Unicode, Long)
           jidcfg,          \* the JID the client object is configured with *now*
           prev,            \* the JID it was configured with before the last Reconfigure ("none": never re-configured)
           lasthow,         \* ghost: how the last Reconfigure was done ("none": never); influences nothing
@@ -42,7 +46,7 @@ VARIABLES gen,
           unwrappedFrom,   \* ghost: classes from which a wrapper was unwrapped
           hist
 
-mvars == <<gen, jidcfg, prev, last, unwrappedFrom>>
+mvars == <<gen, estab, jidcfg, prev, last, unwrappedFrom>>
 vars  == <<mvars, lasthow, hist>>
 
 (* --- vocabulary ----------------------------------------------------------- *)
@@ -62,13 +66,18 @@ AllClasses ==
      "ContactFull",     \* some other full JID
      "OwnAsResource",   \* other bare JID with the own bare JID as resource: evil@x.org/me@example.org
      "Homoglyph",       \* visually identical, different code points
+     "OwnFullPrefix",   \* bound resource contains '/': own bare JID + "/" + first segment of the resource
      "PreviousOwnBare"} \* the bare JID this client object was configured with before the application switched
                         \* accounts: now an ordinary foreign address (exists only after such a switch)
 
 \* "plain" (me@example.org/dev1) and "nores" (me@example.org) are the same account; "mixed" is another one
 SameAccount(a, b) == a = b \/ {a, b} \subseteq {"plain", "nores"}
 \* the class PreviousOwnBare denotes an address (different from the own one) only after a switch of account
-ClassExists(c) == c = "PreviousOwnBare" => (prev # "none" /\ ~SameAccount(prev, jidcfg))
+\* The own bare address is what RFC 7622 says it is: everything before the FIRST '/' of the full JID.  When the
+\* server bound a resource that itself contains '/' (legal: romeo@montague.example/QXmpp/7f3a), the bare JID plus
+\* the first resource segment (romeo@montague.example/QXmpp) is one more forged-sender class: OwnFullPrefix.
+ClassExists(c) == /\ c = "PreviousOwnBare" => (prev # "none" /\ ~SameAccount(prev, jidcfg))
+                  /\ c = "OwnFullPrefix" => estab = "boundSlash"
 
 \* classes that denote the user's own bare address (XMPP addresses compare modulo case folding)
 OwnBareClasses == {"OwnBare", "OwnBareCase"}
@@ -110,7 +119,7 @@ Dir(w) == IF w \in {"received", "recvBody", "nestedRecv"} THEN "received" ELSE "
 NoShow == [what |-> "nothing", fwd |-> FALSE, dir |-> "plain"]
 
 Init ==
-    /\ gen \in Gens /\ jidcfg \in JidCfgs
+    /\ gen \in Gens /\ jidcfg \in JidCfgs /\ estab \in Estabs
     /\ prev = "none" /\ lasthow = "none"
     /\ last = NoShow
     /\ unwrappedFrom = {}
@@ -135,7 +144,7 @@ Recv(c, w, i) ==
        ELSE \* handleStanza returns false: the outer stanza goes down the ordinary message path
             /\ last' = [what |-> "outer", fwd |-> FALSE, dir |-> "plain"]
             /\ UNCHANGED unwrappedFrom
-    /\ UNCHANGED <<gen, jidcfg, prev, lasthow>>
+    /\ UNCHANGED <<gen, estab, jidcfg, prev, lasthow>>
 
 (* --- the application changes the account of the same client object -------- *)
 \* (environment move between two stanzas: configuration().setJid(), setUser()+setDomain(), assigning a new
@@ -145,7 +154,7 @@ Reconfigure(j, how) ==
     /\ j # jidcfg
     /\ Log([a |-> "Reconfigure", j |-> j, how |-> how, from |-> jidcfg])
     /\ prev' = jidcfg /\ jidcfg' = j /\ lasthow' = how
-    /\ UNCHANGED <<gen, last, unwrappedFrom>>
+    /\ UNCHANGED <<gen, estab, last, unwrappedFrom>>
 
 Next == \/ \E c \in Classes : \E w \in Wrappers : \E i \in Inners : Recv(c, w, i)
         \/ \E j \in JidCfgs : \E how \in Hows : Reconfigure(j, how)
@@ -167,6 +176,7 @@ OnlyOwnBare == unwrappedFrom \subseteq {"OwnBare"}
 ExactInner  == last.what = "inner" => last.fwd
 OuterPlain  == last.what = "outer" => ~last.fwd
 TypeOK ==
+    /\ estab \in Estabs
     /\ gen \in Gens /\ jidcfg \in JidCfgs /\ prev \in JidCfgs \cup {"none"} /\ prev # jidcfg
     /\ last.what \in {"nothing", "inner", "outer"} /\ last.fwd \in BOOLEAN
     /\ unwrappedFrom \subseteq Classes
@@ -174,8 +184,8 @@ TypeOK ==
 \* action property: whenever a step shows inner content, that step's outer sender was the own bare JID
 NeverFromOthers == [][(hist'[Len(hist')].a = "Recv" /\ last'.what = "inner") => hist'[Len(hist')].c = "OwnBare"]_vars
 
-Reinit(g, j) ==
-    /\ gen' = g /\ jidcfg' = j
+Reinit(g, j, es) ==
+    /\ gen' = g /\ jidcfg' = j /\ estab' = es
     /\ prev' = "none" /\ lasthow' = "none"
     /\ last' = NoShow
     /\ unwrappedFrom' = {}
@@ -183,12 +193,12 @@ Reinit(g, j) ==
 
 Bound == Len(hist) <= MaxHist
 View  == mvars                  \* MC: state identity without history
-TourView == <<gen, jidcfg>>     \* tour: one source state per client configuration
+TourView == <<gen, jidcfg, estab>>     \* tour: one source state per client configuration
 
 \* Tour after a switch of account: every behaviour is  Recv(OwnBare, sent, .) -- the handler reads the
 \* configured bare JID once --, then one Reconfigure(j, how), then one Recv of the tour.
 ReconfPhase == IF Len(hist) < 2 THEN Len(hist) ELSE 2
-ReconfView  == <<gen, jidcfg, prev, lasthow, ReconfPhase>>
+ReconfView  == <<gen, estab, jidcfg, prev, lasthow, ReconfPhase>>
 ReconfShape ==
     CASE Len(hist) = 0 -> hist'[1].a = "Recv" /\ hist'[1].c = "OwnBare" /\ hist'[1].w = "sent"
       [] Len(hist) = 1 -> hist'[2].a = "Reconfigure"
